@@ -168,7 +168,7 @@ def run(prop, tier, replay=None):
     v.cov["distinct_nontrivial"] = len(distinct)
     v.cov["traces_validated_against_impl"] = sum(1 for e in events if e["ev"] == "Reset")
     v.cov["rule"] = ("a case is one step on the real code: a GetNetworkRecord command or synthetic kad event handled by the real SwarmDriver (TLC-simulated behaviour, or driver-random "
-                     "behaviour over 21 contents x 8 peers x up to 4 callers), or one get_record_from_network call group (a split presented under every iteration order of the result map, "
+                     "behaviour over 23 contents x 8 peers x up to 4 callers), or one get_record_from_network call group (a split presented under every iteration order of the result map, "
                      "or a read with retries); non-trivial = a Call, a step that delivered an outcome, or a client-side case; distinct = distinct (step, arguments, attachment, "
                      "delivered outcomes, pending view) resp. (versions, target, answers, results)")
     first_run = [{k: e.get(k, 0) for k in KAD_FIELDS + ("att", "dl", "pq")} for e in events[1:starts.get(1, 0) + 12] if e["ev"] in KAD_EV][:8]
